@@ -101,10 +101,11 @@ def subst_bytes(codec, tier):
 def mutants_of(b, bc, codec, hexb, r, tier, targeted=True):
     """yield (description, mutated bytes)"""
     sp = spans(b, bc, codec, hexb)
-    vals = subst_bytes(codec, tier)
-    structural = [q for grp in sp['prefix'] for q in grp] + [q for grp in sp['pdslen'] for q in grp] + sp['tlvlen'] + sp['mti']
-    for q in structural:
-        for v in vals:
+    vals = subst_bytes(codec, 'quick')
+    allvals = subst_bytes(codec, tier)          # thorough: every byte value, on the length-carrying positions
+    lengths = [q for grp in sp['prefix'] for q in grp] + [q for grp in sp['pdslen'] for q in grp] + sp['tlvlen']
+    for q in lengths + sp['mti']:
+        for v in (allvals if q in lengths else vals):
             if b[q] != v:
                 yield 'byte %d := 0x%02x' % (q, v), b[:q] + bytes([v]) + b[q + 1:]
     # bitmap bytes: single bit flips (bits added / removed) and a few byte values
@@ -127,7 +128,7 @@ def mutants_of(b, bc, codec, hexb, r, tier, targeted=True):
     for q in sp['tlvlen'][-1:]:
         pass
     for q in sp['typed']:
-        for v in vals[:: (1 if tier == 'thorough' else 3)]:
+        for v in vals[:: (2 if tier == 'thorough' else 3)]:
             if b[q] != v:
                 yield 'typed content byte %d := 0x%02x' % (q, v), b[:q] + bytes([v]) + b[q + 1:]
     if targeted:
